@@ -32,9 +32,13 @@
     ([Some groups]).
     Left out: DRA ResourceClaimInfo (restored verbatim by the code, never
     changed by the modelled fragment), eviction message / metadata, other
-    plugins' event handlers, storage claims, pod affinity.  Per-pod memory per
-    device and queue charge (AcceptedResource) are constants of the pod (all
-    nodes have the same GPU memory).  A queue parent chain is followed for at
+    plugins' event handlers, storage claims, pod affinity.  What
+    NodeInfo.addTask -> setAcceptedResources makes of a pod on a node (device
+    memory of a fraction, accepted GPU portion of a gpu-memory request: both
+    depend on the node's GPU memory) is an input table per pod and node
+    ([p_gtab], [p_qtab], computed by the harness with the real AddTask on a
+    scratch node); [at_node] applies it where the code does, before the
+    plugin handlers read AcceptedResource.  A queue parent chain is followed for at
     most |queues|+1 links (Go spins on a cycle; cyclic queues are dropped at
     snapshot time).  operationValid recursion out of fuel = Go stack overflow:
     the session becomes [s_stuck]. *)
@@ -51,7 +55,9 @@ Record pod := mkPod {
   p_virt : bool;              (* IsVirtualStatus *)
   p_pset : positive;
   p_jreq : res;               (* ResReq as added to PodGroupInfo.Allocated (gpu in milli-GPUs) *)
-  p_qc : res;                 (* QuantifyResourceRequirements(AcceptedResource): cpu, mem, gpu in milli-GPUs *)
+  p_qc : res;                 (* QuantifyResourceRequirements(AcceptedResource) as last set: cpu, mem, gpu in milli-GPUs *)
+  p_gtab : amap Z;            (* node -> NodeInfo.GetResourceGpuMemory(ResReq) on that node *)
+  p_qtab : amap res;          (* node -> what setAcceptedResources gives on that node, quantified *)
 }.
 
 Definition p_id (p : pod) := t_id (p_task p).
@@ -61,11 +67,23 @@ Definition p_groups (p : pod) := t_groups (p_task p).
 Definition task_with (t : task) (s : status) (gs : list positive) : task :=
   mkTask (t_id t) (t_job t) s (t_kind t) (t_req t) (t_ndev t) (t_gmem t) gs (t_resv t) (t_besteffort t).
 Definition pod_with (p : pod) (s : status) (gs : list positive) (n : option positive) (v : bool) : pod :=
-  mkPod (task_with (p_task p) s gs) n v (p_pset p) (p_jreq p) (p_qc p).
+  mkPod (task_with (p_task p) s gs) n v (p_pset p) (p_jreq p) (p_qc p) (p_gtab p) (p_qtab p).
 Definition set_st (p : pod) (s : status) := pod_with p s (p_groups p) (p_node p) (p_virt p).
 Definition set_gs (p : pod) (gs : list positive) := pod_with p (p_status p) gs (p_node p) (p_virt p).
 Definition set_nd (p : pod) (n : option positive) := pod_with p (p_status p) (p_groups p) n (p_virt p).
 Definition set_vt (p : pod) (v : bool) := pod_with p (p_status p) (p_groups p) (p_node p) v.
+
+(** NodeInfo.addTask -> setAcceptedResources(task): the caller's object gets the accepted resources
+    for THIS node (a gpu-memory request is a different GPU portion on nodes with different GPU memory;
+    a fraction is a different amount of device memory) *)
+Definition set_gmem (t : task) (m : Z) : task :=
+  mkTask (t_id t) (t_job t) (t_status t) (t_kind t) (t_req t) (t_ndev t) m (t_groups t) (t_resv t) (t_besteffort t).
+Definition at_node_raw (p : pod) (nid : positive) : pod :=
+  mkPod (set_gmem (p_task p) (match alookup nid (p_gtab p) with Some m => m | None => 0 end))
+        (p_node p) (p_virt p) (p_pset p) (p_jreq p)
+        (match alookup nid (p_qtab p) with Some q => q | None => rzero end) (p_gtab p) (p_qtab p).
+Definition at_node (p : pod) (nid : positive) : pod :=
+  if active_used (t_status (p_task p)) then at_node_raw p nid else p.
 
 Definition scode (s : status) : positive :=
   match s with
@@ -233,7 +251,7 @@ Definition evict (s : sess) (pid : positive) : sess * bool :=
           | Some n =>
               let '(s1, ok) := update_status s p Releasing in
               if negb ok then (s, false) else
-              let p1 := set_st p Releasing in
+              let p1 := at_node (set_st p Releasing) nid in
               match update_task n (p_task p1) with
               | Err => (s1, false)
               | Ok n' =>
@@ -252,15 +270,15 @@ Definition unevict (s : sess) (pid : positive) (prev : status) (nid : positive) 
   | None => s
   | Some p =>
       let '(s1, ok) := update_status s p prev in
-      let p1 := pod_with (if ok then set_st p prev else p) (if ok then prev else p_status p) pg (p_node p) pv in
-      let s2 := put_pod s1 p1 in
-      let s3 := match alookup nid (s_nodes s2) with
-                | None => s2
-                | Some n =>
-                    let r := if amem pid (n_pods n) then update_task n (p_task p1) else add_task n (p_task p1) in
-                    match r with Ok n' => put_node s2 nid n' | Err => s2 end
-                end in
-      ev_alloc s3 p1
+      let p0 := pod_with (if ok then set_st p prev else p) (if ok then prev else p_status p) pg (p_node p) pv in
+      match alookup nid (s_nodes s1) with
+      | None => ev_alloc (put_pod s1 p0) p0
+      | Some n =>
+          let p1 := at_node p0 nid in
+          let s2 := put_pod s1 p1 in
+          let r := if amem pid (n_pods n) then update_task n (p_task p1) else add_task n (p_task p1) in
+          ev_alloc (match r with Ok n' => put_node s2 nid n' | Err => s2 end) p1
+      end
   end.
 
 (** Statement.unpipeline; [moved]: NodeInfo.RestoreTaskEntry afterwards *)
@@ -334,7 +352,7 @@ Definition allocate (s : sess) (pid nid : positive) (gs : option (list positive)
       let s0 := put_pod s p in
       let '(s1, ok) := update_status s0 p Allocated in
       if negb ok then (s0, false) else
-      let p1 := set_nd (set_st p Allocated) (Some nid) in
+      let p1 := at_node (set_nd (set_st p Allocated) (Some nid)) nid in
       let s2 := put_pod s1 p1 in
       match alookup nid (s_nodes s2) with
       | None => (s2, false)
@@ -352,7 +370,7 @@ Definition allocate (s : sess) (pid nid : positive) (gs : option (list positive)
 Definition pipeline_body (s0 : sess) (p : pod) (nid : positive) (n : node) (on_node : option task) (move : bool)
   : sess * bool :=
   let '(s1, ok) := update_status s0 p Pipelined in
-  let p1 := set_nd (if ok then set_st p Pipelined else p) (Some nid) in
+  let p1 := at_node (set_nd (if ok then set_st p Pipelined else p) (Some nid)) nid in
   let s2 := put_pod s1 p1 in
   let pg := match on_node with Some c => if move then t_groups c else p_groups p | None => p_groups p end in
   let r := if move then consolidate_to_different_gpu n (p_task p1)
@@ -648,6 +666,10 @@ Definition has_placing (L : list op) (pid : positive) : bool :=
 Definition no_valid_evict (L : list op) (pid : positive) : bool :=
   match first_valid_evict L L pid 0 with Some None => true | _ => false end.
 
+(** the pod's accepted resources are the ones of node [nid] *)
+Definition fresh_on (p : pod) (nid : positive) : bool :=
+  (t_gmem (p_task (at_node_raw p nid)) =? t_gmem (p_task p)) && req (p_qc (at_node_raw p nid)) (p_qc p).
+
 (** the job's books have the pod where its status says *)
 Definition indexed (s : sess) (p : pod) : bool :=
   match alookup (t_job (p_task p)) (s_jobs s) with
@@ -671,11 +693,11 @@ Definition evicted_ok (s : sess) (p : pod) : bool :=
       | Some (OEvict _ prev nid pg _) =>
           active_allocated prev
           && match p_node p with Some h => Pos.eqb h nid | None => false end
-          && (list_pos_eqb (p_groups p) pg || is_shared (p_task p))
+          && ((list_pos_eqb (p_groups p) pg && fresh_on p nid) || is_shared (p_task p))
           && match alookup nid (s_nodes s) with
              | Some n => sortedb (n_pods n)
                          && match alookup (p_id p) (n_pods n) with
-                            | Some c => task_eqb c (task_with (p_task p) Releasing pg)
+                            | Some c => task_eqb c (task_with (p_task (at_node_raw p nid)) Releasing pg)
                             | None => false
                             end
              | None => false
@@ -698,7 +720,7 @@ Definition wf_cmd (tok : task -> bool) (stk : list nat) (conv : bool) (s : sess)
             && no_valid_evict (s_log s) pid && negb (has_placing (s_log s) pid)
             && match p_node p with
                | Some nid => match alookup nid (s_nodes s) with
-                             | Some n => sortedb (n_pods n)
+                             | Some n => sortedb (n_pods n) && fresh_on p nid
                                          && match alookup pid (n_pods n) with
                                             | Some c => task_eqb c (p_task p)
                                             | None => false
@@ -713,7 +735,7 @@ Definition wf_cmd (tok : task -> bool) (stk : list nat) (conv : bool) (s : sess)
         match get_pod s pid, alookup nid (s_nodes s) with
         | Some p, Some n =>
             Pos.eqb (p_id p) pid && tok (p_task p) && shared_gs p gs && negb (has_placing (s_log s) pid)
-            && sortedb (n_pods n)
+            && (sortedb (n_pods n) && (is_shared (p_task p) || fresh_on p nid))
             && (if status_eqb (p_status p) Pending then
                   indexed s p && negb (amem pid (n_pods n))
                   && match p_node p with None => true | Some _ => false end
@@ -729,7 +751,8 @@ Definition wf_cmd (tok : task -> bool) (stk : list nat) (conv : bool) (s : sess)
         match get_pod s pid, alookup nid (s_nodes s) with
         | Some p, Some n =>
             Pos.eqb (p_id p) pid && tok (p_task p) && shared_gs p gs && negb (has_placing (s_log s) pid)
-            && sortedb (n_pods n) && status_eqb (p_status p) Pending && indexed s p && negb (amem pid (n_pods n))
+            && (sortedb (n_pods n) && (is_shared (p_task p) || fresh_on p nid))
+            && status_eqb (p_status p) Pending && indexed s p && negb (amem pid (n_pods n))
             && match p_node p with None => true | Some _ => false end
         | _, _ => false
         end
